@@ -424,6 +424,14 @@ def runBest : RM String := do
   let accs := (← nextIs n).toList
   return match bestIter start accs with | none => "-1" | some k => toString k
 
+/-- `iters nIter n accbits[n]` : how many iterations `learn` runs on this accuracy sequence -/
+def runIters : RM String := do
+  let nIter ← nextN
+  let n ← nextN
+  let mut accs : Array Float := #[]
+  for _ in [0:n] do accs := accs.push (← rdF)
+  return toString (learnIterations nIter 0.0 0 accs.toList)
+
 def runPrune : RM String := do
   let n ← nextN
   let rel ← nextNs n
@@ -449,6 +457,7 @@ def dispatch (line : String) : String :=
     | "swap" => run runSwap
     | "best" => run runBest
     | "prune" => run runPrune
+    | "iters" => run runIters
     | "dist" => run runDist
     | "arcs" => run runArcs
     | "pdf" => run runPdf
